@@ -2,6 +2,7 @@
 // traffic, optional faults.  Modes: clean (C02a), faulty (C01), recover (C02b).
 #include "scen.h"
 #include "gen.h"
+#include "relay.h"
 #include <algorithm>
 
 static const char *TYPES[7] = {"NULL", "PRIVATE", "TXT", "SRV", "MX", "CNAME", "A"};
@@ -100,6 +101,7 @@ J gen_tunnel(uint64_t seed, const J &ov)
 	if (ov.has("lazy")) for (auto &c : cl.a) c.set("lazy", (int)ov.geti("lazy"));
 	if (ov.has("raw")) for (auto &c : cl.a) c.set("raw", ov.getb("raw"));
 	if (ov.has("fragsize")) for (auto &c : cl.a) c.set("fragsize", (int)ov.geti("fragsize"));
+	if (mode == "redeliver") for (auto &c : cl.a) c.set("raw", false);
 	cfg.set("clients", cl);
 
 	uint64_t ser = seed % 1000 * 100000;
@@ -135,6 +137,26 @@ J gen_tunnel(uint64_t seed, const J &ov)
 		cfg.set("faults", f);
 		cfg.set("dur_s", (int)(W + 40));
 		cfg.set("tmax_s", 700);
+	} else if (mode == "redeliver") {
+		// C16: otherwise clean path; the only fault kind is re-delivery of queries (verbatim, new id, re-cased, other source)
+		double W = 10 + r.uniform() * 30;
+		int maxlen = r.chance(0.8) ? 1200 : 3000;
+		bool b32 = r.chance(0.55);
+		if (b32) cfg.set("relay", gen_relay(r, "base32"));
+		else if (r.chance(0.3)) cfg.set("relay", gen_relay(r, r.chance(0.5) ? "base64" : "base64u"));
+		cfg.set("no_check_ip", r.chance(0.12));
+		gen_traffic(r, ops, "c0", r.chance(0.5) ? "srv" : "ext", (int)r.range(15, 45), 0.1, W, ser, maxlen, true);
+		gen_traffic(r, ops, "srv", "c0", (int)r.range(15, 45), 0.1, W, ser, maxlen, true);
+		J f = J::obj();
+		f.set("ref", "T0"); f.set("t0_us", (long long)200000); f.set("t1_us", (long long)((W + 5) * 1e6));
+		f.set("p_redeliv", r.chance(0.4) ? 0.005 + r.uniform() * 0.05 : 0.03 + r.uniform() * (r.chance(0.3) ? 0.6 : 0.2));
+		f.set("p_rd_newid", r.chance(0.7) ? r.uniform() : 0.0);
+		f.set("p_rd_recase", b32 && r.chance(0.7) ? r.uniform() * 0.8 : 0.0);
+		f.set("p_rd_altsrc", r.chance(0.4) ? r.uniform() * 0.3 : 0.0);
+		f.set("rd_max_delay_us", (long long)(r.chance(0.5) ? r.range(1000, 200000) : r.range(200000, 3000000)));
+		cfg.set("faults", f);
+		cfg.set("dur_s", (int)(W + 45));
+		cfg.set("tmax_s", 600);
 	} else { // recover
 		double p = 0.1 + r.uniform() * 4.9;             // offered packet period after the faults
 		if (r.chance(0.3)) p = 0.1 + r.uniform() * 0.9;
@@ -187,15 +209,20 @@ World *build_tunnel(const J &plan)
 	w->plan = plan;
 	w->build_common();
 	std::string mode = w->cfg.gets("mode", "faulty");
+	Relay *relay = nullptr;
+	if (w->cfg.has("relay")) relay = install_relay(w, w->cfg["relay"]);
 	w->add(mk_c01_integrity(w));
-	w->add(mk_c02_delivery(w, mode == "clean", mode == "recover"));
-	bool dupish = w->cfg["faults"].getd("p_dup") > 0;
+	if (mode == "redeliver") { w->add(mk_c02_delivery(w, true, false, "C16")); w->add(mk_c16_redeliver(w)); }
+	else w->add(mk_c02_delivery(w, mode == "clean", mode == "recover"));
+	w->add(mk_c15_fragsize(w));
+	bool dupish = w->cfg["faults"].getd("p_dup") > 0 || w->cfg["faults"].getd("p_redeliv") > 0;
 	w->add(mk_c14_ledger(w, !dupish));
 	w->add(mk_probes(w));
 	// signature: the configuration cell this run visited
 	std::string s = mode;
 	for (auto &c : w->cfg["clients"].a)
 		s += "|" + c.gets("qtype", "auto") + "/" + c.gets("downenc", "auto") + "/L" + std::to_string(c.geti("lazy", 1)) + (c.getb("raw") ? "/raw" : "") + (c.geti("fragsize") ? "/m" : "/auto");
+	if (relay) s += "|relay:" + relay->sig();
 	w->sig = s;
 	World *ww = w;
 	w->result_hooks.push_back([ww](J &r) {
@@ -207,6 +234,7 @@ World *build_tunnel(const J &plan)
 		if (mode == "faulty") nt = nt && fault;
 		if (mode == "clean") nt = nt && ww->probes["c02.acc_c"] >= 5 && ww->probes["c02.acc_s"] >= 5;
 		if (mode == "recover") nt = nt && fault;
+		if (mode == "redeliver") nt = nt && ww->probes["c16.redelivered"] >= 1;
 		r.set("nontriv", nt);
 	});
 	return w;
